@@ -69,6 +69,7 @@ def disjuncts(t):
 def run(ctx, R):
     F = ctx.facts()
     submit_writes(F, R)
+    table_writers(F, R)
     R.rule("RF9 specifier/priority/protected-atom tables; RF3 validators before '$op'; RF10 op_declaration; RF1 priority-0 filter; RF3 direct-lookup guard")
     text = open(os.path.join(REPO, "src/lib/builtins.pl")).read()
     cl = {}
@@ -167,6 +168,15 @@ def run(ctx, R):
             bar_single = has_bar_conditions
         if goals_named(br, "list_of_op_atoms"):
             bar_list = has_bar_conditions and "|" in atoms_in(br)
+            # "each rejected call ... leaves the table unchanged": the infix/postfix exclusion is detected by '$op' while a
+            # name is being declared, so the list form must look for a clash over ALL names before it declares the first
+            gs = P.conj(br[2][1]) if br[0] == "cmp" and br[1] == "->" else P.conj(br)
+            i_map = next((i for i, g in enumerate(gs) if "maplist" in P.show(g) and "op_" in P.show(g)), None)
+            i_clash = next((i for i, g in enumerate(gs) if "op_clash" in P.show(g) and "member" in P.show(g) and "permission_error" in P.show(g)), None)
+            R.ob("C43:list-form:clash-checked-before-first-declaration", i_map is not None and i_clash is not None and i_clash < i_map,
+                 "op(P, T, [A1, .., An]) declares the names one by one and the infix/postfix exclusion is only detected while a name is being declared: op(200, xf, [zza, +]) "
+                 "raises permission_error(create, operator, +) after zza has been declared. The list branch must test every name for a clash before the first declaration",
+                 "src/lib/builtins.pl:%d" % opline)
     R.floor("op/3 branches that declare operators", n_op_calls, 3)
     R.ob("C43:bar-restricted:single-atom-form", bar_single, "op(P, T, '|') must require an infix specifier and P >= 1001 or P == 0, else permission_error(create, operator, '|')", "src/lib/builtins.pl:%d" % opline)
     R.ob("C43:bar-restricted:list-form", bar_list,
@@ -265,3 +275,28 @@ def submit_writes(F, R):
     R.ob("C43:submit:accepted-declaration-is-written", not bad,
          "OpDecl::submit returns Ok on a path that does not write the declaration into the operator table (block(s) %s): op(700,xfx,foo), op(700,xfy,foo) then succeeds "
          "while current_op/3 and the reader still see xfx" % bad, F.where(sb[0]))
+
+
+DIRECT_WRITERS_OK = {
+    "OpDecl::submit": "the checked path (infix/postfix exclusion)",
+    "OpDecl::remove": "priority 0: removal",
+    "<'a, LS>::reset_machine": "retraction: restores the definitions a failed load had replaced",
+    "Loader<'a, LS>::remove_module_op_exports": "restores the user-level table after a module's exports were shown to the parser",
+}
+
+
+def table_writers(F, R):
+    """"an infix and a postfix definition of the same name cannot coexist": the exclusion is enforced by OpDecl::submit
+    only. Whoever writes a declaration into an operator table directly (insert_into_op_dir) bypasses it."""
+    tgt = [p for p in F.items if p.endswith("OpDecl::insert_into_op_dir")]
+    if len(tgt) != 1:
+        raise AnchorLost("OpDecl::insert_into_op_dir: %s" % tgt)
+    callers = sorted({short(p) for p, cs in F.calls.items() if any((c.get("resolved") or c.get("callee")) == tgt[0] for c in cs)})
+    R.floor("direct writers of the operator table", len(callers), 4)
+    for c in callers:
+        if c in DIRECT_WRITERS_OK:
+            R.ob("C43:direct-table-write:%s:exception" % c, True, "listed: " + DIRECT_WRITERS_OK[c], "src/forms.rs")
+        else:
+            R.ob("C43:direct-table-write:%s" % c, False,
+                 "%s writes an operator declaration into the table with insert_into_op_dir, bypassing OpDecl::submit's infix/postfix exclusion: a file directive "
+                 ":- op(200, xf, +). makes + both infix and postfix (current_op(P, T, +) then lists yfx, fy and xf)" % c, "src/machine/load_state.rs")
